@@ -52,6 +52,15 @@ let fops : float numOps = {
 }
 
 
+(* the same operations with a relative perturbation of 1e-12 on the results of the power and function calls: the
+   second evaluation of every case uses them (and perturbed variable values) to measure how rounding differences
+   between libm / tfel::math::power<N> / std::pow are amplified by the rest of the formula *)
+let pert v = v *. (1. +. 1e-12)
+let fops_p : float numOps = { fops with
+  pow = (fun a b -> pert (fops.pow a b)); powz = (fun a n -> pert (fops.powz a n));
+  dfun = (fun f a -> pert (fops.dfun f a)); ufun = (fun f a -> match f with Heav | Abs -> fops.ufun f a | _ -> pert (fops.ufun f a));
+  bfun = (fun f a b -> match f with Max | Min -> fops.bfun f a b | _ -> pert (fops.bfun f a b)) }
+
 (* classification of the tokens produced by the lexer of the code (numbers, known names, operators) *)
 let q_of_string s =
   (* digits [. digits] [e[+-]digits] *)
@@ -97,7 +106,7 @@ let () =
         let tl = List.filter (fun s -> s <> "") (String.split_on_char ' ' toks) |> List.map tok_of in
         (match parse tl with
          | None -> Printf.printf "M %s NONE\n" id
-         | Some e -> Printf.printf "M %s OK %.17g %.17g\n" id (eval fops (env 0.) e) (eval fops (env 1.) e))
+         | Some e -> Printf.printf "M %s OK %.17g %.17g\n" id (eval fops (env 0.) e) (eval fops_p (env 1.) e))
       | _ -> ()
     done
   with End_of_file -> ())
